@@ -2,6 +2,8 @@ import ClockBound.Properties.CodeTieSeqlock
 import ClockBound.Properties.CodeTieSeqlockHead
 import ClockBound.Properties.CodeTieHeader
 import ClockBound.Properties.CodeTieWriterNew
+import ClockBound.Properties.OnCodeSeqlock
+import ClockBound.Properties.OnCodeWriterNew
 open ClockBound
 #print axioms CodeTieSeqlock.write_eq
 #print axioms CodeTieSeqlock.write_record_eq
@@ -26,3 +28,19 @@ open ClockBound
 #print axioms CodeTieSeqlockHead.ann_default
 #print axioms CodeTieSeqlockHead.write_ann
 #print axioms CodeTieSeqlockHead.snapshot_eq
+#print axioms OnCode.C11_write_stores
+#print axioms OnCode.C11_history
+#print axioms OnCode.C11_after_completed
+#print axioms OnCode.C18_snapshot_bounded
+#print axioms OnCode.C18_version_zero
+#print axioms OnCode.C18_in_flight
+#print axioms OnCode.C02_C03_bridge
+#print axioms OnCode.C02_no_mixture
+#print axioms OnCode.C03_accepted_monotone
+#print axioms OnCode.C03_cache_is_publication
+#print axioms OnCode.C04_new_is_script
+#print axioms OnCode.C04_usable_kept
+#print axioms OnCode.C04_unusable_recreated
+#print axioms OnCode.C04_fresh_after_crash
+#print axioms OnCode.C16_new_leaves_writerNew
+#print axioms OnCode.C16_repair_roundtrip
